@@ -95,11 +95,11 @@ def parse_body(body, rule):
             else:
                 stmts.append({"op": "set", "val": parse_arg(rhs)})
             continue
-        m = re.match(r"^strncpy\(\(yyval\.string\), (.*?) ?, MAXLEN\)$", st)
+        m = re.match(r"^strn?cpy\(\(yyval\.string\), (.*?)(?: ?, ?\w+)?\)$", st)
         if m:
             stmts.append({"op": "set", "val": parse_arg(m.group(1))})
             continue
-        m = re.match(r"^strcpy\(rootTransId, (.*)\)$", st)
+        m = re.match(r"^strn?cpy\(rootTransId, (.*?)(?: ?, ?[A-Z_0-9]+)?\)$", st)
         if m:
             stmts.append({"op": "setroot", "val": parse_arg(m.group(1))})
             continue
@@ -107,6 +107,11 @@ def parse_body(body, rule):
             stmts.append({"op": "types0"}); continue
         if st == "types++":
             stmts.append({"op": "typesinc"}); continue
+        if not re.search(r"CALL|yyval|yyvsp|rootTransId|\btypes\b|ch->|YYABORT|YYERROR|YYACCEPT|yyclearin|yyerrok", st):
+            # a statement that touches neither the builder, the semantic values nor the parser's control state: no effect on the callback trace
+            stmts.append({"op": "opaque", "text": st})
+            sys.stderr.write("lr_tables: note: statement %r in action of rule %s treated as having no effect on the callbacks\n" % (st, rule))
+            continue
         raise SystemExit("lr_tables: cannot interpret statement %r in action of rule %s; extend extract/lr_tables.py" % (st, rule))
     return stmts
 
